@@ -145,10 +145,13 @@ def load_check(pid):
 _MOD = None
 
 
-def _classify_exception(tb_list):
+def _classify_exception(tb_list, ex=None):
     """True if the exception was raised below repo code called from a check"""
     mc_dir = os.path.join(VERIF, 'mc') + os.sep
     repo = os.path.realpath(REPO) + os.sep
+    if ex is not None and type(ex).__name__ == 'EnvValueError':
+        # raised by the controller on behalf of numpy.random (argument validation): attribute it to the caller
+        return any(os.path.realpath(fr.filename).startswith(repo) for fr in tb_list)
     last_mc = -1
     for i, fr in enumerate(tb_list):
         if os.path.realpath(fr.filename).startswith(mc_dir):
@@ -166,7 +169,7 @@ def _run_one(job):
     except Exception as ex:  # noqa
         tb = traceback.extract_tb(ex.__traceback__)
         text = ''.join(traceback.format_exception(type(ex), ex, ex.__traceback__))[-3000:]
-        if _classify_exception(tb):
+        if _classify_exception(tb, ex):
             acc = Acc()
             acc.case(None, nontrivial=False)
             site = [fr for fr in tb if os.path.realpath(fr.filename).startswith(os.path.realpath(REPO) + os.sep)][-1]
@@ -239,7 +242,7 @@ def confirm_main(pid, casepath, outpath):
             viols = _MOD.replay(case)
     except Exception as ex:  # noqa
         tb = traceback.extract_tb(ex.__traceback__)
-        if _classify_exception(tb):
+        if _classify_exception(tb, ex):
             viols = [{'key': {'kind': 'exception', 'exc': type(ex).__name__}, 'msg': 'raised %s: %s' % (type(ex).__name__, ex)}]
         else:
             raise
